@@ -578,21 +578,7 @@ def roundtrip_case(draw, fmt):
 # ------------------------------------------------------------------------------------------ sub-checks
 
 
-@subcheck("C14", "draw", shards={"quick": 5, "thorough": 12})
-def s_draw(ctx):
-    ctx.given("C14.draw", draw_case(arcs=True), n={"quick": 800, "thorough": 16000})
-
-
-@subcheck("C14", "draw_poly", shards={"quick": 3, "thorough": 6})
-def s_draw_poly(ctx):
-    ctx.given("C14.draw", draw_case(arcs=False), n={"quick": 480, "thorough": 8000})
-
-
-@subcheck("C14", "transform", shards={"quick": 4, "thorough": 12})
-def s_transform(ctx):
-    ctx.given("C14.transform", transform_case(), n={"quick": 800, "thorough": 16000})
-
-
+# round trips first: they are the cheapest shards and must not be starved by the wall budget on a loaded machine
 @subcheck("C14", "roundtrip_dxf", shards={"quick": 2, "thorough": 6})
 def s_rt_dxf(ctx):
     ctx.given("C14.roundtrip", roundtrip_case("dxf"), n={"quick": 300, "thorough": 6000})
@@ -606,6 +592,21 @@ def s_rt_svg(ctx):
 @subcheck("C14", "roundtrip_dict", shards={"quick": 1, "thorough": 2})
 def s_rt_dict(ctx):
     ctx.given("C14.roundtrip", roundtrip_case("dict"), n={"quick": 200, "thorough": 2000})
+
+
+@subcheck("C14", "draw", shards={"quick": 5, "thorough": 12})
+def s_draw(ctx):
+    ctx.given("C14.draw", draw_case(arcs=True), n={"quick": 800, "thorough": 16000})
+
+
+@subcheck("C14", "draw_poly", shards={"quick": 3, "thorough": 6})
+def s_draw_poly(ctx):
+    ctx.given("C14.draw", draw_case(arcs=False), n={"quick": 480, "thorough": 8000})
+
+
+@subcheck("C14", "transform", shards={"quick": 4, "thorough": 12})
+def s_transform(ctx):
+    ctx.given("C14.transform", transform_case(), n={"quick": 800, "thorough": 16000})
 
 
 REQUIRED_CLASSES["C14"] = [
